@@ -52,8 +52,10 @@ def noop_call(h, rng, x, cid):
         return h.add(("helper", x, ("update", aid), {"pos": [rng.choice([MISSING, EMPTY, UNCHANGED])]}), ("inst", cid))
     if t == ("spec", 1) and r < 0.5:
         return h.add(("helper", x, ("update", aid), {"pos": [], "kw": None}), ("inst", cid))
-    if r < 0.75:
+    if r < 0.65:
         return h.add(("helper", x, ("transform", aid), {"fn": ("id",)}), ("inst", cid))
+    if r < 0.8:     # transform(attr=lambda v: v): the transform sees the attribute of the copy being built
+        return h.add(("helper", x, ("transform_top", None), {"kwfn": [(aid, ("id",))]}), ("inst", cid))
     return h.add(("helper", x, ("with", aid), {"pos": [rng.choice([MISSING, UNCHANGED, EMPTY])]}), ("inst", cid))
 
 
